@@ -135,6 +135,9 @@ def run(tier, seed, replay=None):
         try:
             w = torch.tensor(np.array([rng.randint(-2, 2) for _ in range(max(1, vi.numel()))]).reshape(vi.shape), dtype=torch.float64)
             for l in lits: l._override = [torch.tensor(c, dtype=torch.float64) for c in l.cores]
+            if i % 4 == 1:      # the watched cores in column-major memory (cores made from Fortran-ordered sources, cores of a sliced / permuted object): leaves all the same
+                for l in lits: l._override = [c.permute(*reversed(range(c.dim()))).contiguous().permute(*reversed(range(c.dim()))) for c in l._override]
+                tags.append("column-major leaves")
             expr.EVAL_ID[0] += 1
             objs = [l.impl([], torch.float64) for l in lits]
             use_list = i % 3 == 0                      # every third case goes through watch_list / grad_list (all cores of all operands)
@@ -282,6 +285,38 @@ def run(tier, seed, replay=None):
             dist["extreme scales:" + kind_] = dist.get("extreme scales:" + kind_, 0) + 1
         except Exception as ex:
             V.fail("extreme core scales: %s raises %s" % (kind_, type(ex).__name__), dict(desc, exc=str(ex)[:200]))
+    # ---- several read-outs of ONE watched object whose cores are not contiguous (column-major cores, cores that are slices of a larger buffer): watch,
+    # apply_mask / full / sum / slicing one after the other, then grad.grad of the total: every read-out leaves the watched leaves in place
+    for j in range(8 if tier == "quick" else 80):
+        d = rng.choice([2, 3]); N = [rng.choice([2, 3]) for _ in range(d)]
+        xv = tt(rng, N); base = [torch.tensor(c, dtype=torch.float64) for c in xv.cores]
+        layout = ["column-major", "slice of a buffer", "contiguous", "column-major"][j % 4]
+        def lay(c):
+            if layout == "column-major": return c.permute(2, 1, 0).contiguous().permute(2, 1, 0)
+            if layout == "slice of a buffer":
+                buf = torch.zeros(c.shape[0], c.shape[1], c.shape[2] + 2, dtype=c.dtype); buf[:, :, 1:-1] = c; return buf[:, :, 1:-1]
+            return c.clone()
+        desc = {"watched object read several times": True, "layout": layout, "N": N, "R": [int(c.shape[2]) for c in base[:-1]]}
+        try:
+            x_t = torchtt.TT([lay(c) for c in base]); torchtt.grad.watch(x_t)
+            rows = [[rng.randrange(n) for n in N] for _ in range(3)]; w3 = torch.tensor([float(rng.randint(-2, 2)) for _ in range(3)], dtype=torch.float64)
+            wf = torch.tensor(np.array([rng.randint(-2, 2) for _ in range(int(np.prod(N)))], dtype=np.float64).reshape(N))
+            order = ["apply_mask first", "full first"][j % 2]
+            if order == "apply_mask first": val = (x_t.apply_mask(torch.tensor(rows)) * w3).sum() + (x_t.full() * wf).sum() + x_t.sum()
+            else: val = (x_t.full() * wf).sum() + (x_t.apply_mask(torch.tensor(rows)) * w3).sum() + x_t.sum()
+            g = torchtt.grad.grad(val, x_t)
+            leaves = [c.clone().requires_grad_(True) for c in base]
+            D_ = leaves[0][0]
+            for c in leaves[1:]: D_ = torch.tensordot(D_, c, dims=([D_.dim() - 1], [0]))
+            D_ = D_[..., 0]
+            ref = torch.autograd.grad((torch.stack([D_[tuple(r)] for r in rows]) * w3).sum() + (D_ * wf).sum() + D_.sum(), leaves)
+            for k_, (a_, b_) in enumerate(zip(g, ref)):
+                if a_ is None or list(a_.shape) != list(b_.shape) or not torch.equal(a_, b_):
+                    V.fail("a watched object read several times (%s): grad.grad is not the gradient of the dense expression" % order, dict(desc, core=k_, got="None" if a_ is None else str(a_.tolist())[:200], want=str(b_.tolist())[:200])); break
+            if not all(c.is_leaf and c.requires_grad for c in x_t.cores): V.fail("a watched object read several times: its cores are no longer the watched leaves", desc)
+        except Exception as ex:
+            V.fail("a watched object read several times raises %s" % type(ex).__name__, dict(desc, exc=str(ex)[:200]))
+        dist["watched object read several times: " + layout] = dist.get("watched object read several times: " + layout, 0) + 1
     # ---- Model/CoreGrad.v against autograd: the gradient of (w * x.full()).sum() w.r.t. each core (torchtt.grad.watch / grad.grad, and plain
     # Tensor.backward) on integer trains and integer weights equals core_grad exactly - the function theorem C15_weighted_sum_core_grad is about
     cg_cases, cg_meta = [], []
